@@ -66,6 +66,7 @@ def pEnv : P Env := do
 def fmtErr : Err → String
   | .zeroDivisionError => "ZeroDivisionError" | .typeError => "TypeError" | .valueError => "ValueError"
   | .termImageError => "TermImageError" | .mixed => "mixed"
+  | .fileNotFoundError => "FileNotFoundError" | .invalidSizeError => "InvalidSizeError" | .runtimeError => "RuntimeError"
 
 def fmtPair : Except Err (Nat × Nat) → String
   | .ok (w, h) => s!"ok {w} {h}"
@@ -100,6 +101,13 @@ def pOp : P Op := do
   | "sc" => do let c ← pCell; pure (.setCell c)
   | "sr" => do let a ← pRatioArg; pure (.setRatio a)
   | "rn" => pure .render
+  | "rw" => do
+    let c ← bool; let sc ← bool; let f ← word
+    match f with
+    | "none" => pure (.renderWith c sc .none)
+    | "source" => pure (.renderWith c sc .source)
+    | "renderer" => pure (.renderWith c sc .renderer)
+    | _ => failure
   | _ => failure
 
 def fmtBoolR (b : Bool) : String := "ok " ++ fmtBool b
